@@ -1,0 +1,5 @@
+//go:build !verif
+
+package object
+
+func verifTrace(ev string, key string) {}
